@@ -311,10 +311,109 @@ func (in *inst) rewriteGo(g *ast.GoStmt) []ast.Stmt {
 	return []ast.Stmt{in.yield("Yield", g.Pos()), blk, in.yield("Yield", g.Pos())}
 }
 
+// terminating implements the "terminating statement" rules of the Go specification (conservatively).
+func terminating(s ast.Stmt) bool {
+	lastTerm := func(list []ast.Stmt) bool {
+		return len(list) > 0 && terminating(list[len(list)-1])
+	}
+	hasBreak := func(n ast.Node) bool { // an unlabelled break that refers to n (or any labelled break: conservative)
+		found := false
+		var walk func(x ast.Node, top bool)
+		walk = func(x ast.Node, top bool) {
+			ast.Inspect(x, func(y ast.Node) bool {
+				if y == nil || found {
+					return false
+				}
+				if y != x {
+					switch y.(type) {
+					case *ast.ForStmt, *ast.RangeStmt, *ast.SwitchStmt, *ast.TypeSwitchStmt, *ast.SelectStmt:
+						// unlabelled breaks inside refer to the inner statement; labelled ones may refer to n
+						ast.Inspect(y, func(z ast.Node) bool {
+							if b, ok := z.(*ast.BranchStmt); ok && b.Tok == token.BREAK && b.Label != nil {
+								found = true
+							}
+							return !found
+						})
+						return false
+					case *ast.FuncLit:
+						return false
+					}
+				}
+				if b, ok := y.(*ast.BranchStmt); ok && b.Tok == token.BREAK {
+					found = true
+				}
+				return !found
+			})
+		}
+		walk(n, true)
+		return found
+	}
+	switch s := s.(type) {
+	case *ast.ReturnStmt:
+		return true
+	case *ast.BranchStmt:
+		return s.Tok == token.GOTO
+	case *ast.ExprStmt:
+		if c, ok := s.X.(*ast.CallExpr); ok {
+			if id, ok := c.Fun.(*ast.Ident); ok && id.Name == "panic" {
+				return true
+			}
+		}
+	case *ast.BlockStmt:
+		return lastTerm(s.List)
+	case *ast.IfStmt:
+		return s.Else != nil && lastTerm(s.Body.List) && terminating(s.Else)
+	case *ast.ForStmt:
+		return s.Cond == nil && !hasBreak(s.Body)
+	case *ast.LabeledStmt:
+		return terminating(s.Stmt)
+	case *ast.SwitchStmt, *ast.TypeSwitchStmt:
+		var body *ast.BlockStmt
+		if sw, ok := s.(*ast.SwitchStmt); ok {
+			body = sw.Body
+		} else {
+			body = s.(*ast.TypeSwitchStmt).Body
+		}
+		def := false
+		for _, c := range body.List {
+			cc := c.(*ast.CaseClause)
+			if cc.List == nil {
+				def = true
+			}
+			if len(cc.Body) == 0 {
+				return false
+			}
+			last := cc.Body[len(cc.Body)-1]
+			if b, ok := last.(*ast.BranchStmt); ok && b.Tok == token.FALLTHROUGH {
+				continue
+			}
+			if !terminating(last) {
+				return false
+			}
+		}
+		return def && !hasBreak(body)
+	case *ast.SelectStmt:
+		for _, c := range s.Body.List {
+			if !lastTerm(c.(*ast.CommClause).Body) {
+				return false
+			}
+		}
+		return !hasBreak(s.Body)
+	}
+	return false
+}
+
 func (in *inst) rewriteList(list []ast.Stmt, inGo bool) []ast.Stmt {
 	var out []ast.Stmt
 	for _, s := range list {
 		if in.gen[s] {
+			out = append(out, s)
+			continue
+		}
+		switch s.(type) {
+		case *ast.CaseClause, *ast.CommClause:
+			// the body of a switch or select is a list of clauses: nothing may stand between them
+			// (their own bodies are lists of their own)
 			out = append(out, s)
 			continue
 		}
@@ -344,6 +443,9 @@ func (in *inst) rewriteList(list []ast.Stmt, inGo bool) []ast.Stmt {
 			*in.unins = append(*in.unins, in.site(g.Pos())+" (labeled go statement)")
 		}
 		f := in.shallowScan(core)
+		if terminating(core) {
+			f.terminates = true // nothing may follow a terminating statement at the end of a function body
+		}
 		if d, ok := core.(*ast.DeferStmt); ok {
 			if m, _, isSync := in.syncMethod(d.Call); isSync && (m == "Unlock" || m == "RUnlock") {
 				d.Call = &ast.CallExpr{Fun: &ast.FuncLit{Type: &ast.FuncType{Params: &ast.FieldList{}}, Body: &ast.BlockStmt{List: []ast.Stmt{
